@@ -115,6 +115,22 @@ theorem data_ite (c : Prop) [Decidable c] (a b : Gen.F128_Int) :
 theorem toInt_ite (c : Prop) [Decidable c] (a b : I128) :
     (if c then a else b).toInt = if c then a.toInt else b.toInt := by split <;> rfl
 
+/-- `t.Multiplier() / 2` computed on the `int64` (a rewrite that halves the multiplier before widening it) -/
+theorem sdiv2 (M : BitVec 64) (h : 0 < M.toInt) : (BitVec.sdiv M 2#64).toInt = M.toInt / 2 := by
+  rw [BitVec.toInt_sdiv_of_ne_or_ne _ _ (Or.inr (by decide))]
+  simp only [BitVec.reduceToInt]
+  rw [Int.tdiv_eq_ediv_of_nonneg (by omega)]
+
+theorem quo2 (m : Int) (h : 0 < m) (hf : fits128 m) : F128.quo m 2 = m / 2 := by
+  simp only [fits128] at hf
+  unfold F128.quo F128.toU Fixed.wrap128
+  simp only [show ¬ m < 0 by omega, show ¬ (2:Int) < 0 by omega, if_false, decide_false, bne_self_eq_false,
+    Bool.false_eq_true]
+  have e1 : m % 340282366920938463463374607431768211456 = m := Int.emod_eq_of_lt (by omega) (by omega)
+  have e2 : (2 : Int) % 340282366920938463463374607431768211456 = 2 := by decide
+  rw [e1, e2]
+  omega
+
 end GenTie128
 
 /-! ## the proof script -/
@@ -146,11 +162,11 @@ macro_rules
       first
       | with_reducible rfl
       | ((try split_ifs) <;> first | with_reducible rfl | omega)
-      | ((try simp only [Fixed.F128.gt, Fixed.F128.ge, Fixed.F128.lt, Fixed.F128.le, Fixed.F128.eq, Fixed.F128.neg,
+      | ((try simp only [Fixed.F128.gt, Fixed.F128.ge, Fixed.F128.lt, Fixed.F128.le, Fixed.F128.eq, Fixed.F128.neg, Fixed.F128.cmp,
             decide_eq_true_eq, decide_eq_false_iff_not, Bool.not_eq_true', ne_eq, Bool.and_eq_true, Bool.or_eq_true,
             Bool.decide_eq_true] at *) <;>
          (try split_ifs) <;> first | with_reducible rfl | omega)
-      | ((try simp only [Fixed.F128.gt, Fixed.F128.ge, Fixed.F128.lt, Fixed.F128.le, Fixed.F128.eq, Fixed.F128.neg,
+      | ((try simp only [Fixed.F128.gt, Fixed.F128.ge, Fixed.F128.lt, Fixed.F128.le, Fixed.F128.eq, Fixed.F128.neg, Fixed.F128.cmp,
             Fixed.F128.add, Fixed.F128.sub, Fixed.wrap128, decide_eq_true_eq, decide_eq_false_iff_not,
             Bool.not_eq_true', ne_eq, Bool.and_eq_true, Bool.or_eq_true, Bool.decide_eq_true, gt_iff_lt, ge_iff_le]
             at *) <;>
